@@ -101,7 +101,7 @@ fn counters(rng: &mut Rng, thorough: bool) -> Vec<u64> {
     }
     v.push(0);
     v.push(u64::MAX - 4);
-    for _ in 0..(if thorough { 12 } else { 3 }) {
+    for _ in 0..(if thorough { 48 } else { 3 }) {
         v.push(rng.next());
     }
     v.sort_unstable();
@@ -175,7 +175,7 @@ pub fn drive_c14(out: &mut dyn std::io::Write, seed: u64, thorough: bool) {
 pub fn drive_c15(out: &mut dyn std::io::Write, seed: u64, thorough: bool) {
     let mut rng = Rng::new(seed ^ 0xc15);
     let vals: Vec<u64> = vec![0, 1, u64::MAX, 0xffff_ffff, 1 << 32, 0x8000_0000_0000_0000, 0x0123_4567_89ab_cdef, rng.next(), rng.next()];
-    let reps = if thorough { 8 } else { 2 };
+    let reps = if thorough { 40 } else { 2 };
     for _ in 0..reps {
         for &v in vals.iter() {
             let key = rng.bytes(32);
